@@ -17,6 +17,7 @@ META = {
                    ' The primitives that write a jump operand store the two bytes of a 16-bit value (checked narrowing to u16). R11.7 the peephole primitives that give a block its value look at the last instruction emitted, not the last byte. R11.8 a failed compilation leaves no loop context and no peephole record behind.',
     'not_decided': ['which branch runs for which run-time value; iteration counts'],
 }
+META['explanation'] += ' R11.9 the jump placeholder is only written, never read back. R11.10 every statement of a block, branch and loop body is compiled.'
 COMPILER = 'compiler::Compiler'
 
 
